@@ -68,6 +68,79 @@ PLAN = {
             "level_note": "call-graph frame checker is syntactic (dynamic dispatch by method name, callbacks and progress bars assumed effect-free); "
                           "effect table of os / shutil / pyben assumed; POSIX rename semantics",
             "trusted": ["effect table of externals (DESIGN 5.1)", "observer callbacks effect-free"]},
+    "C04": {"functions": [], "harness": True,
+            "level_text": "arithmetic core proved for every sequence of (chunk, piece, path, size) tuples a piece checker yields: Checker.iter_hashes "
+                          "reports matched/consumed*100, which is < 100 as soon as one tuple with size > 0 mismatches; Padder.__next__ / "
+                          "HashChecker.advance (absent data = zero pieces of the right sizes).  That the checkers yield exactly one tuple per "
+                          "piece of the payload (coverage clause) is decided by the bounded harness (12.5k damage cases quick, 147k thorough) "
+                          "against an independent reference recheck",
+            "level_note": "coverage clause of FeedChecker / HashChecker bounded, not proved; SHA collision-freeness assumed; float percentage read over exact rationals",
+            "modulo_bounded": ["FeedChecker.iter_pieces / extract / _gen_padding", "HashChecker.__next__ / next_file / process_current", "Checker.check_paths / find_root"],
+            "trusted": ["different bytes give different hashes (cryptographic assumption)", "float: 0 <= m < c < 2^52 => fl(fl(m/c)*100) < 100 (hand argument, DESIGN 3.3-2)"]},
+    "C05": {"functions": [], "harness": True,
+            "level_text": "arithmetic core proved (all pieces matching and consumed > 0 gives exactly 100); path discovery (find_root, check_paths, "
+                          "walk_file_tree) and the coverage clause are decided by the bounded harness over torrentfile-written and "
+                          "reference-encoded metafiles, content path = root and parent",
+            "level_note": "as C04; one known finding (directory torrent whose parent directory has the payload's name)",
+            "modulo_bounded": ["Checker.find_root / check_paths / walk_file_tree", "FeedChecker.*", "HashChecker.*"],
+            "trusted": ["pyben.load"]},
+    "C16": {"functions": [], "harness": True,
+            "level_text": "Checker.iter_hashes proved to report exactly 100 * (sum of sizes of matching tuples) / (sum of sizes); Padder / advance "
+                          "sizes proved; that tuple i is exactly piece i of the payload (sizes, independence of verdicts) is decided by the "
+                          "bounded harness against the reference piece-by-piece computation",
+            "level_note": "as C04; one known finding (padding entries of BEP 47 v1 metafiles weighted as payload)",
+            "modulo_bounded": ["FeedChecker.*", "HashChecker.__next__ / next_file / process_current"],
+            "trusted": ["float percentage read over exact rationals"]},
+    "C09": {"functions": [], "harness": True,
+            "level_text": "Memo.__call__ (the only cache in the package) is proved to return the wrapped function evaluated now, with an arbitrary "
+                          "(havocked) cache; other process-global state (class-level callbacks, Checker._hook, sys.stdout replacement, "
+                          "TORRENTFILE_DEBUG) is exercised by the bounded harness: operation sequences in one process compared step by step "
+                          "with a fresh interpreter",
+            "level_note": "global havoc of the remaining module state is not generated mechanically (DESIGN 5.6 planned it); bounded sequences of length <= 4",
+            "modulo_bounded": ["class-level callback slots", "module-level state other than Memo"],
+            "trusted": ["observer callbacks have no effect on results"]},
+    "C08": {"functions": [], "harness": True,
+            "level_text": "MetaFile.__init__ proved: the info dictionary holds exactly name, piece length and the given info-level options (clause "
+                          "quantified over every key), name = basename of the resolved path; trackers, seeds, outfile, progress, cwd, clock "
+                          "reach top-level keys only.  Independence from enumeration order / spelling / location for files, pieces and file tree "
+                          "is decided by the bounded harness (all permutations of listings up to 4 entries, 21 spellings, copies, clocks)",
+            "level_note": "os.path.abspath / basename uninterpreted (two spellings of one path resolve equally: assumed, exercised natively); "
+                          "sorted() in _filelist_total / _traverse bounded",
+            "modulo_bounded": ["_filelist_total", "_traverse x3", "hashers"],
+            "trusted": ["os.path semantics"]},
+    "C01": {"functions": [], "harness": True,
+            "level_text": "v1 hashing proved from source for all file lists, sizes and piece lengths: Hasher.__init__ / next_file / _handle_partial / "
+                          "__next__ against a stream specification (each call returns SHA-1 of the next piece_length bytes of the concatenated "
+                          "files, fewer only at the very end; StopIteration exactly when nothing is left), and TorrentFile.assemble through the "
+                          "iterator protocol: info.pieces == v1_pieces(concatenation of the listed files, recorded piece length), every listed "
+                          "file appears once in order with its exact length, single file records its exact length",
+            "level_note": "that the list returned by utils.filelist_total is exactly the regular files below the path (each once) is bounded "
+                          "(_filelist_total recursion over the file system is not under contract); file reads: readinto short only at EOF; SHA-1 "
+                          "uninterpreted; L3 (unique prefix of given length) by hand / lemmas/L3_stream.lean",
+            "modulo_bounded": ["utils._filelist_total (directory walk)", "MetaFile.__init__ -> assemble wiring of piece_length (C12 contract)"],
+            "trusted": ["io.BufferedReader.readinto on regular files", "no concurrent modification while hashing"]},
+    "C15": {"functions": [], "harness": True,
+            "level_text": "proved from source: with alignment the pieces are v1_pieces of the declared stream in which every file is followed by zero "
+                          "bytes up to the next piece boundary (Hasher align branch + assemble), each padding entry's length is the gap "
+                          "(-size mod piece length), the listed lengths sum to exactly the hashed bytes, a single file is hashed alone",
+            "level_note": "gap(n, pl) axiomatised by its defining equation (-n) mod pl and the three lemma instances used; padding entry marking (attr 'p', "
+                          "path) bounded by the harness",
+            "modulo_bounded": ["utils._filelist_total"],
+            "trusted": ["as C01"]},
+    "C02": {"functions": [], "harness": True,
+            "level_text": "proved from source: next_power_2 (smallest power of two >= n) and merkle_root (equals the BEP 52 layer-wise merkle root "
+                          "of a power-of-two list of digests, via the pairing idiom); the block / piece / padding logic of the three v2 hashers and "
+                          "the file-tree traversal are decided by the bounded harness against an independent BEP 52 reference (4 creators x 232 "
+                          "trees quick, 23.8k thorough)",
+            "level_note": "HasherV2 / HasherHybrid / FileHasher / _traverse are bounded, not proved",
+            "modulo_bounded": ["HasherV2.process_file/_calculate_root", "HasherHybrid.*", "FileHasher.__next__/_pad_remaining/_calculate_root", "_traverse x3"],
+            "trusted": ["SHA-256 uninterpreted", "L2 merkle decomposition (Lean, DESIGN appendix A)"]},
+    "C10": {"functions": [], "harness": True,
+            "level_text": "shared primitives proved (next_power_2, merkle_root); agreement of the creator pairs and of the three v2-capable hashers "
+                          "is decided by the bounded harness (pairwise comparison of info dictionaries, piece layers, roots, v1 pieces, padding)",
+            "level_note": "hashers bounded; agreement is not derived from contracts yet",
+            "modulo_bounded": ["HasherV2", "HasherHybrid", "FileHasher", "TorrentAssembler / TorrentFileV2 / TorrentFileHybrid"],
+            "trusted": []},
 }
 
 
